@@ -95,6 +95,40 @@ func (i *IVFReader) ptsToTimestamp(pts uint64) uint64 {
 // ParseNextFrame reads from stream and returns IVF frame payload, header,
 // and an error if there is incomplete frame data.
 // Returns all nil values when no more frames are available.
+// largest frame whose buffer is allocated before any of its bytes were read.
+const maxPreallocatedFrameSize = 1 << 20
+
+// readFramePayload reads a frame of the size its header announces. The size is
+// untrusted input: a larger buffer grows with the bytes that actually arrive,
+// so that a damaged size field cannot make the reader allocate gigabytes.
+func (i *IVFReader) readFramePayload(size uint32) ([]byte, error) {
+	if size <= maxPreallocatedFrameSize {
+		payload := make([]byte, size)
+		_, err := io.ReadFull(i.stream, payload)
+		if errors.Is(err, io.ErrUnexpectedEOF) {
+			return nil, errIncompleteFrameData
+		} else if err != nil {
+			return nil, err
+		}
+
+		return payload, nil
+	}
+
+	payload, err := io.ReadAll(io.LimitReader(i.stream, int64(size)))
+	if err != nil {
+		return nil, err
+	}
+	if len(payload) < int(size) {
+		if len(payload) == 0 {
+			return nil, io.EOF
+		}
+
+		return nil, errIncompleteFrameData
+	}
+
+	return payload, nil
+}
+
 func (i *IVFReader) ParseNextFrame() ([]byte, *IVFFrameHeader, error) {
 	buffer := make([]byte, ivfFrameHeaderSize)
 	var header *IVFFrameHeader
@@ -113,13 +147,11 @@ func (i *IVFReader) ParseNextFrame() ([]byte, *IVFFrameHeader, error) {
 		Timestamp: i.ptsToTimestamp(pts),
 	}
 
-	payload := make([]byte, header.FrameSize)
-	bytesRead, err = io.ReadFull(i.stream, payload)
-	if errors.Is(err, io.ErrUnexpectedEOF) {
-		return nil, nil, errIncompleteFrameData
-	} else if err != nil {
+	payload, err := i.readFramePayload(header.FrameSize)
+	if err != nil {
 		return nil, nil, err
 	}
+	bytesRead = len(payload)
 
 	i.bytesReadSuccesfully += int64(headerBytesRead) + int64(bytesRead)
 
